@@ -99,6 +99,10 @@ impl Prop for C03 {
             for star in 4..=7u8 {
                 v.push(HistCase { universe: 8, spec, wmode: 1, ctor: None, ops: crate::huge::huge_ops(0xBEEF + k as u64 * 8 + star as u64), huge: star });
             }
+            // ... and on the complete graph of 1 100 nodes (undirected: 604 000 edges)
+            if directed == 0 {
+                v.push(HistCase { universe: 8, spec, wmode: 1, ctor: None, ops: crate::huge::huge_ops(0xD0D0 + k as u64), huge: 8 });
+            }
         }
         // one batch of thousands of edges with a failing element in the middle
         for spec in (0..96u8).step_by(8) {
